@@ -13,6 +13,17 @@ pub struct MemSource {
 	pub tiles: HashMap<(u8, u32, u32), Blob>,
 	pub parameters: TilesReaderParameters,
 	pub tilejson: TileJSON,
+	/// every lookup suspends this many times (Poll::Pending + wake) before it answers, as real I/O does
+	pub yields: usize,
+}
+
+/// suspends the current task exactly once, on any runtime
+pub struct YieldOnce(pub bool);
+impl std::future::Future for YieldOnce {
+	type Output = ();
+	fn poll(mut self: std::pin::Pin<&mut Self>, cx: &mut std::task::Context<'_>) -> std::task::Poll<()> {
+		if self.0 { std::task::Poll::Ready(()) } else { self.0 = true; cx.waker().wake_by_ref(); std::task::Poll::Pending }
+	}
 }
 
 impl MemSource {
@@ -31,9 +42,11 @@ impl MemSource {
 			tiles: map,
 			parameters: TilesReaderParameters::new(format, compression, pyramid),
 			tilejson: TileJSON::default(),
+			yields: 0,
 		}
 	}
 	pub fn with_pyramid(mut self, p: TileBBoxPyramid) -> Self { self.parameters.bbox_pyramid = p; self }
+	pub fn with_yields(mut self, n: usize) -> Self { self.yields = n; self }
 	pub fn with_tilejson(mut self, t: TileJSON) -> Self { self.tilejson = t; self }
 }
 
@@ -45,6 +58,7 @@ impl TilesReaderTrait for MemSource {
 	fn override_compression(&mut self, c: TileCompression) { self.parameters.tile_compression = c; }
 	fn get_tilejson(&self) -> &TileJSON { &self.tilejson }
 	async fn get_tile_data(&self, coord: &TileCoord3) -> Result<Option<Blob>> {
+		for _ in 0..self.yields { YieldOnce(false).await; }
 		Ok(self.tiles.get(&(coord.z, coord.x, coord.y)).cloned())
 	}
 }
